@@ -32,12 +32,13 @@ let parse_op (f : string list) : op =
 
 let parse_pos (p : string) : ipos =
   let n = nat_of_int (int_of_string (String.sub p 1 (String.length p - 1))) in
-  if p.[0] = 'v' then IV n else IR n
+  if p.[0] = 'v' then IV n else if p.[0] = 'a' then IA n else IR n
 
 let parse_eff (f : string) : (ipos * op) list * (string list) list =
   let body = String.sub f 2 (String.length f - 2) in
   if body = "" then ([], []) else
-  let es = List.map (fun e -> match sp '/' e with [p; o] -> (parse_pos p, sp ':' o) | _ -> failwith "bad eff") (sp ',' body) in
+  let es = List.map (fun e -> match sp '/' e with [p; o] -> (parse_pos p, sp ':' o) | _ -> failwith "bad eff")
+             (List.filter (fun e -> e <> "STUCK") (sp ',' body)) in
   (List.map (fun (p, o) -> (p, parse_op o)) es, List.map snd es)
 
 let dump (st : spec_store) : string =
@@ -79,7 +80,8 @@ let () =
                  | ["purge"; m] -> m = mb
                  | _ -> false) effops in
              let verdict =
-               if res <> "ok" then "fail:scan-" ^ String.lowercase_ascii res
+               if List.mem "STUCK" (sp ',' eff) then "fail:delivery-stuck"
+               else if res <> "ok" then "fail:scan-" ^ String.lowercase_ascii res
                else begin
                  let bad = ref "" in
                  let fail s = if !bad = "" then bad := s in
@@ -106,6 +108,18 @@ let () =
                      let want = List.map (fun v -> int_of_nat (fst v)) (List.filter (fun v -> not (is_exp v)) snap) in
                      if s <> want then fail "scan-not-exact"
                    end) initial;
+                 (* mail delivered during the scan is young: it must be there unless another client removed it later *)
+                 let cnt = Hashtbl.create 7 in
+                 List.iter (fun (mb, n) -> Hashtbl.replace cnt (field_of_str mb) (int_of_nat n)) st0.counts;
+                 let fresh = ref [] in
+                 List.iter (fun o -> match o with
+                   | ["add"; mb] ->
+                       let k = (try Hashtbl.find cnt mb with Not_found -> 0) in
+                       Hashtbl.replace cnt mb (k + 1); fresh := (mb, k) :: !fresh
+                   | ["rm"; mb; kk] -> fresh := List.filter (fun (m, k) -> not (m = mb && k = int_of_string kk)) !fresh
+                   | ["purge"; mb] -> fresh := List.filter (fun (m, _) -> m <> mb) !fresh
+                   | _ -> ()) effops;
+                 List.iter (fun (mb, k) -> if not (List.mem k (surv_of mb)) then fail "fresh-mail-lost") !fresh;
                  if cancel > 0 && int_of_string callbacks > cancel then fail "cancel-not-prompt";
                  if !bad = "" then "ok" else "fail:" ^ !bad
                end in
